@@ -73,6 +73,136 @@ class ClassInfo:
         return f"<class {self.qual}>"
 
 
+def _is_private(name: str) -> bool:
+    return name.startswith("_") and not (name.startswith("__") and name.endswith("__"))
+
+
+def _fp_of(fn, siblings) -> dict:
+    calls = set()
+    for n in ast.walk(fn):
+        if isinstance(n, ast.Call):
+            f = n.func
+            if isinstance(f, ast.Attribute) and isinstance(f.value, ast.Name) and f.value.id in ("self", "cls"):
+                calls.add(f.attr)
+            elif isinstance(f, ast.Name):
+                calls.add(f.id)
+    a = fn.args
+    return {"arity": len(a.posonlyargs) + len(a.args), "calls": sorted(c for c in calls if c in siblings or c.startswith("_"))}
+
+
+def fingerprint_module(tree) -> dict:
+    """{scope: {private name: {arity, calls, callers}}} for scope '' (module functions) and every class"""
+    out = {}
+    scopes = {"": [st for st in tree.body if isinstance(st, (ast.FunctionDef, ast.AsyncFunctionDef))]}
+    mod_fns = {f.name for f in scopes[""]}
+    for st in tree.body:
+        if isinstance(st, ast.ClassDef):
+            scopes[st.name] = [x for x in st.body if isinstance(x, (ast.FunctionDef, ast.AsyncFunctionDef))]
+    for scope, fns in scopes.items():
+        names = {f.name for f in fns} | mod_fns
+        fps = {f.name: _fp_of(f, names) for f in fns}
+        callers = {}
+        for f in fns:
+            for c in fps[f.name]["calls"]:
+                callers.setdefault(c, set()).add(f.name)
+        if scope == "":
+            # module functions are also called from methods
+            for cl, cfns in scopes.items():
+                for f in cfns:
+                    for c in _fp_of(f, names)["calls"]:
+                        if c in mod_fns:
+                            callers.setdefault(c, set()).add(f"{cl}.{f.name}" if cl else f.name)
+        out[scope] = {n: {**fp, "callers": sorted(callers.get(n, ()))} for n, fp in fps.items() if _is_private(n)}
+    return out
+
+
+def _jaccard(a, b) -> float:
+    a, b = set(a), set(b)
+    return 1.0 if not a and not b else len(a & b) / max(1, len(a | b))
+
+
+_ANCHORS = None
+
+
+def _anchor_aliases(tree, rel: str) -> Dict[str, Dict[str, str]]:
+    """{scope: {current private name: frozen name}} for private names the inventory knows under another name"""
+    global _ANCHORS
+    if _ANCHORS is None:
+        p = Path(__file__).resolve().parent / "anchors.json"
+        _ANCHORS = json.loads(p.read_text()) if p.exists() else {}
+    frozen = _ANCHORS.get(rel)
+    if not frozen:
+        return {}
+    cur = fingerprint_module(tree)
+    out: Dict[str, Dict[str, str]] = {}
+    for scope, fz in frozen.items():
+        now = cur.get(scope)
+        if now is None:
+            continue
+        missing = [n for n in fz if n not in now]
+        fresh = [n for n in now if n not in fz]
+        if not missing or not fresh:
+            continue
+        scored = []
+        for m in missing:
+            for f in fresh:
+                a, b = fz[m], now[f]
+                # names that were renamed along with it compare equal
+                ga = lambda xs: ["?" if x in missing else x for x in xs]    # noqa: E731
+                gb = lambda xs: ["?" if x in fresh else x for x in xs]      # noqa: E731
+                sc = (1.0 if a["arity"] == b["arity"] else 0.0) + _jaccard(ga(a["calls"]), gb(b["calls"])) \
+                    + _jaccard(ga(a["callers"]), gb(b["callers"]))
+                scored.append((sc, m, f))
+        scored.sort(reverse=True)
+        used_m, used_f = set(), set()
+        for sc, m, f in scored:
+            if sc < 2.0 or m in used_m or f in used_f:
+                continue
+            # unambiguous: no other candidate for this frozen name within 0.25
+            rivals = [s2 for s2, m2, f2 in scored if m2 == m and f2 != f and f2 not in used_f and s2 > sc - 0.25]
+            if rivals:
+                continue
+            used_m.add(m)
+            used_f.add(f)
+            out.setdefault(scope, {})[f] = m
+    return out
+
+
+class _AliasRenamer(ast.NodeTransformer):
+    def __init__(self, aliases):
+        self.aliases = aliases       # {scope: {current: frozen}}
+        self.flat = {}
+        for sc, d in aliases.items():
+            if sc:
+                self.flat.update(d)
+
+    def visit_Module(self, node):
+        for st in node.body:
+            if isinstance(st, (ast.FunctionDef, ast.AsyncFunctionDef)) and st.name in self.aliases.get("", {}):
+                st.name = self.aliases[""][st.name]
+        self.generic_visit(node)
+        return node
+
+    def visit_ClassDef(self, node):
+        d = self.aliases.get(node.name, {})
+        for st in node.body:
+            if isinstance(st, (ast.FunctionDef, ast.AsyncFunctionDef)) and st.name in d:
+                st.name = d[st.name]
+        self.generic_visit(node)
+        return node
+
+    def visit_Attribute(self, node):
+        self.generic_visit(node)
+        if node.attr in self.flat:
+            node.attr = self.flat[node.attr]
+        return node
+
+    def visit_Name(self, node):
+        if node.id in self.aliases.get("", {}):
+            node.id = self.aliases[""][node.id]
+        return node
+
+
 class Module:
     def __init__(self, name: str, path: Path, rel: str):
         self.name = name
@@ -80,6 +210,10 @@ class Module:
         self.rel = rel
         self.source = path.read_text()
         self.tree = ast.parse(self.source, filename=str(path))
+        # a renamed private helper is analysed under the name the rules know (see tools/gen_anchors.py)
+        self.anchor_aliases = _anchor_aliases(self.tree, rel)
+        if self.anchor_aliases:
+            _AliasRenamer(self.anchor_aliases).visit(self.tree)
         self.functions: Dict[str, ast.FunctionDef] = {}
         self.classes: Dict[str, ClassInfo] = {}
         self.imports: Dict[str, str] = {}
